@@ -88,6 +88,9 @@ func main() {
 	// (2) concurrent Compile sharing options and environment values
 	shared := &opEnv{Env: c08lib.EnvA(), Tag: "t"}
 	mapEnv := map[string]interface{}{"S": "a", "I": 1, "A": []int{1, 2}, "Up": func(s string) string { return s + "!" }}
+	// Option VALUES shared by all goroutines (the realistic way to use options: build once, compile many)
+	sharedMapEnvOpt := expr.Env(mapEnv)
+	sharedStructOpt := expr.Env(shared)
 	type job struct {
 		src string
 		ops []expr.Option
@@ -99,6 +102,11 @@ func main() {
 		{`Twice(I) in 1..9 and S matches "a"`, []expr.Option{expr.Env(*shared), expr.Patch(noopVisitor{})}},
 		{`Up(S) + "y"`, []expr.Option{expr.Env(mapEnv), expr.AllowUndefinedVariables()}},
 		{`len(A) + I`, []expr.Option{expr.Env(mapEnv), expr.AsInt64()}},
+		{`undefinedOne + len(S)`, []expr.Option{sharedMapEnvOpt, expr.AllowUndefinedVariables()}},
+		{`undefinedTwo == nil and I > 0`, []expr.Option{sharedMapEnvOpt, expr.AllowUndefinedVariables()}},
+		{`I + len(S)`, []expr.Option{sharedMapEnvOpt}},
+		{`S + Tag`, []expr.Option{sharedStructOpt, expr.Operator("+", "AddS")}},
+		{`PtrMeth() + I`, []expr.Option{sharedStructOpt}},
 	}
 	soloBC := make([][]byte, len(jobs))
 	for i, j := range jobs {
